@@ -5,7 +5,7 @@ metacharacter up to a length bound, plus random long/binary cases."""
 import itertools
 import random
 
-from .. import core, execgen, execsuite
+from .. import core, execgen, execsuite, concsuite
 
 ALPHA = b"ab*?[]^-\\"
 
@@ -141,6 +141,11 @@ def run_glob(R, ctx):
         R.violation("proof-broken", dict(kind="proof-broken", broken=ctx.broken,
                                          summary="theorem(s) no longer check: " + ", ".join(t for t, _ in ctx.broken)), found_input=False)
 
+    rule = R.rule
+    concsuite.run_conc(R, ctx, "keys-walk", ['keysstable'], (2, 12), race=False)
+    R.rule = rule + " Concurrent scenario(s) keysstable of the conc engine (see C05): the family's containers under concurrent clients, verdict by invariants that need no history search."
 
 def replay(R, payload):
+    if payload.get("engine") == "conc":
+        return concsuite.replay_conc(R, payload)
     return core.generic_replay(R, payload)
